@@ -343,12 +343,16 @@ def _maybe_broadcast_other(op: str, n_other: int = 1):
             others_map = []
             shape = self.shape
             self_expand = self
-            shapes = [shape, *[other.shape for other in others if other is not None]]
+            # operands without a shape (Python scalars) take no part in the broadcast
+            shapes = [
+                shape,
+                *[other.shape for other in others if hasattr(other, "shape")],
+            ]
             shape = torch.broadcast_shapes(*shapes)
             if shape != self_expand.shape:
                 self_expand = self_expand.expand(shape)
             for other in others:
-                if other is None:
+                if other is None or not hasattr(other, "shape"):
                     others_map.append(other)
                     continue
                 # broadcast dims
@@ -356,15 +360,41 @@ def _maybe_broadcast_other(op: str, n_other: int = 1):
                     other = other.expand(shape)
                 others_map.append(other)
             if any(isinstance(other, torch.Tensor) for other in others_map):
+                # tensordict operands (if any) are matched by key through apply, tensor operands are
+                # broadcast against each leaf from the left, anything else is passed as is
+                td_idx = [
+                    i
+                    for i, other in enumerate(others_map)
+                    if _is_tensor_collection(type(other))
+                ]
+
+                def call(x, *td_leaves):
+                    td_leaves = iter(td_leaves)
+                    operands = [
+                        (
+                            next(td_leaves)
+                            if i in td_idx
+                            else (
+                                expand_as_right(other, x)
+                                if isinstance(other, torch.Tensor)
+                                else other
+                            )
+                        )
+                        for i, other in enumerate(others_map)
+                    ]
+                    return getattr(x, op)(*operands, *args, **kwargs)
+
+                if td_idx:
+                    # as for the fused path: the key sets must match exactly
+                    keys = set(self_expand.keys(True, True))
+                    for i in td_idx:
+                        other_keys = set(others_map[i].keys(True, True))
+                        if other_keys != keys:
+                            raise KeyError(
+                                f"Some keys were not found: {keys.symmetric_difference(other_keys)}."
+                            )
                 return self_expand._fast_apply(
-                    lambda x: getattr(x, op)(
-                        *[
-                            expand_as_right(other, x) if other is not None else None
-                            for other in others_map
-                        ],
-                        *args,
-                        **kwargs,
-                    )
+                    call, *[others_map[i] for i in td_idx]
                 )
             return getattr(self_expand, op)(*others_map, *args, **kwargs)
 
